@@ -1,6 +1,9 @@
 package main
 
-import "math"
+import (
+	"math"
+	"os"
+)
 
 // Generators for the constituent transport / trapping models of property C12
 // (routing/{lumpedconstituent,decay,instream_*}.go, storage/{sediment_trapping,trap_all,dissolved_decay}.go).
@@ -11,6 +14,29 @@ import "math"
 // with the degenerate values (0, exact thresholds) that select the other branch of each model.
 
 const minimumVolumeC12 = 1e-2
+
+// c12FineConditioned (harness argument `finegen=conditioned`) restricts the InstreamFineSediment generator to
+// well-conditioned runs, for the tolerance-based correspondence of that kernel only. Reason: the kernel reports two
+// RATIOS (deposition / mass present). When the mass present is pure round-off residue (everything was deposited on
+// the previous step and nothing arrives) the ratio is residue/residue: the real code and the model, whose pow/exp
+// differ in the last bit, then legitimately disagree by many orders of magnitude (observed: −5e47 vs 0). In
+// conditioned mode mass of the order of the transport capacity arrives on every step, so the mass present is never a
+// residue; the unrestricted generator (zero-load spells included) is still run against the implementation for the
+// oracle (family label K-fine-oracle in checks/C12.py), just not diffed against the model.
+var c12FineConditioned = func() bool {
+	for _, a := range os.Args {
+		if a == "finegen=conditioned" {
+			return true
+		}
+	}
+	return false
+}()
+
+// stash between the Inputs and the States draw of one InstreamFineSediment case (drawCall draws them in that order)
+var c12FineStash struct {
+	allZero   bool
+	massScale float64
+}
 
 func drawDt(r *Rng) float64 {
 	return []float64{86400, 86400, 3600, 43200, 600, 1}[r.Intn(6)]
@@ -152,6 +178,9 @@ func init() {
 			n := r.Uniform(0.02, 0.15)
 			vs := r.LogUniform(1e-6, 1e-2)
 			vr := vs * r.LogUniform(1e-2, 1e2) // either side of the settling velocity
+			if c12FineConditioned {
+				vr = vs * r.LogUniform(0.1, 10)
+			}
 			if r.Chance(0.15) {
 				vr = vs
 			}
@@ -190,6 +219,40 @@ func init() {
 				}
 				return Series(r, T, scale)
 			}
+			c12FineStash.allZero, c12FineStash.massScale = false, 0
+			if c12FineConditioned && p[0] > 1e-8 {
+				if r.Chance(0.05) { // nothing at all (the States draw then starts from empty stores): exact zeros throughout
+					c12FineStash.allZero = true
+					return [][]float64{make([]float64, T), make([]float64, T), make([]float64, T), vol, flow}
+				}
+				if q > 0 {
+					scale = stcC12(q, p[5], p[10], p[3], p[9]) * 1000 / dt * r.LogUniform(1e-2, 30)
+				}
+				if !(scale > 1e-9 && scale < 1e12) {
+					scale = r.LogUniform(1e-4, 10)
+				}
+				c12FineStash.massScale = scale * dt
+				// every step receives mass within a factor 400 of every other step, through at least one of the three inputs
+				ld := [][]float64{make([]float64, T), make([]float64, T), make([]float64, T)}
+				use := []bool{r.Chance(0.7), r.Chance(0.7), r.Chance(0.7)}
+				if !use[0] && !use[1] && !use[2] {
+					use[r.Intn(3)] = true
+				}
+				storm := 1.0
+				for t := 0; t < T; t++ {
+					if r.Chance(0.1) {
+						storm = 1 + 19*r.F01()
+					} else {
+						storm = 1 + (storm-1)*0.6
+					}
+					for k := 0; k < 3; k++ {
+						if use[k] {
+							ld[k][t] = scale * storm * r.Uniform(0.05, 1)
+						}
+					}
+				}
+				return [][]float64{ld[0], ld[1], ld[2], vol, flow}
+			}
 			return [][]float64{mk(), mk(), mk(), vol, flow}
 		},
 		States: func(r *Rng, p []float64) []float64 {
@@ -207,6 +270,15 @@ func init() {
 			sm := storedMass(r)
 			if r.Chance(0.5) {
 				sm *= 1e3
+			}
+			if c12FineConditioned && p[0] > 1e-8 {
+				if c12FineStash.allZero {
+					return []float64{0, 0}
+				}
+				sm = c12FineStash.massScale * r.LogUniform(1e-2, 1e2)
+				if r.Chance(0.15) {
+					sm = 0
+				}
 			}
 			return []float64{cs, sm}
 		},
